@@ -6,6 +6,7 @@
 #include <occa/internal/core/streamTag.hpp>
 #include <occa/internal/utils/env.hpp>
 #include <occa/internal/io.hpp>
+#include <occa/internal/utils/verif.hpp>
 
 namespace occa {
   modeDevice_t::modeDevice_t(const occa::json &properties_) :
@@ -13,9 +14,14 @@ namespace occa {
     properties(properties_),
     needsLauncherKernel(false),
     bytesAllocated(0),
+#ifdef LIBOCCA_OCCA_VERIF
+    maxBytesAllocated(0) { OCCA_VERIF_CREATED(kDevice); }
+#else
     maxBytesAllocated(0) {}
+#endif
 
   modeDevice_t::~modeDevice_t() {
+    OCCA_VERIF_DESTROYED(kDevice);
     // Null all wrappers
     while (deviceRing.head) {
       device *mem = (device*) deviceRing.head;
